@@ -15,6 +15,7 @@ import (
 	"sort"
 	"strings"
 	"sync"
+	"time"
 
 	"github.com/wizenheimer/comet/internal/vrt"
 	vos "github.com/wizenheimer/comet/internal/vrt/vos"
@@ -506,6 +507,7 @@ func init() {
 			fmt.Fprintf(os.Stderr, "RACEPASS-SCENARIO %s\n", sc.Name)
 			for i := 0; i < iters; i++ {
 				vRunFree(sc)
+				fmt.Fprintln(os.Stderr, "RACEPASS-ITER")
 				n++
 			}
 		}
@@ -549,6 +551,34 @@ func vRaceShard(tier string) vShard {
 		sc.Buffer(make([]byte, 1<<20), 1<<20)
 		scenario := ""
 		inRace := false
+		// watchdog: a free-running body that makes no progress for 30 s is hung (a real
+		// deadlock or livelock in the code under test): kill the pass and report it
+		var wmu sync.Mutex
+		lastProgress := time.Now()
+		hungAt := ""
+		stopWatch := make(chan struct{})
+		go func() {
+			for {
+				select {
+				case <-stopWatch:
+					return
+				case <-time.After(time.Second):
+				}
+				wmu.Lock()
+				idle := time.Since(lastProgress)
+				cur := scenario
+				wmu.Unlock()
+				if idle > 30*time.Second || c.Expired() {
+					wmu.Lock()
+					if idle > 30*time.Second {
+						hungAt = cur
+					}
+					wmu.Unlock()
+					cmd.Process.Kill()
+					return
+				}
+			}
+		}()
 		var block []string
 		isHarness := func(f string) bool {
 			return strings.Contains(f, "comet.v") || strings.Contains(f, "comet.(*v") || strings.Contains(f, "comet.init.") || strings.Contains(f, "comet.VerifMain")
@@ -602,9 +632,17 @@ func vRaceShard(tier string) vShard {
 		for sc.Scan() {
 			line := sc.Text()
 			switch {
-			case strings.HasPrefix(line, "RACEPASS-SCENARIO "):
+			case strings.HasPrefix(line, "RACEPASS-SCENARIO ") || strings.HasPrefix(line, "RACEPASS-ITER"):
+				wmu.Lock()
+				lastProgress = time.Now()
+				wmu.Unlock()
+				if strings.HasPrefix(line, "RACEPASS-ITER") {
+					continue
+				}
 				flush()
+				wmu.Lock()
 				scenario = strings.TrimPrefix(line, "RACEPASS-SCENARIO ")
+				wmu.Unlock()
 				c.NewState("race|" + scenario)
 				c.Transitions++
 				c.Traces++
@@ -627,7 +665,13 @@ func vRaceShard(tier string) vShard {
 			}
 		}
 		flush()
+		close(stopWatch)
 		cmd.Wait()
+		wmu.Lock()
+		if hungAt != "" {
+			c.Violation("free-running-hang", "no progress for 30s", "racepass "+hungAt, []string{hungAt}, "the free-running execution of this scenario made no progress for 30 s (deadlock or livelock); the pass was killed")
+		}
+		wmu.Unlock()
 		c.Evaluations += int64(len(vScenarios))
 		c.Bound = "free-running race-detector pass (sampling; cross-check, not enumeration)"
 	}}
